@@ -58,7 +58,7 @@ def run(d, tier="quick"):
     results = {}
     try:
         for p in props:
-            rc, out = sh("cd /verif && timeout 1800 ./check %s --tier %s" % (p, tier))
+            rc, out = sh("cd /verif && timeout 1800 ./check %s --tier %s %s" % (p, tier, os.environ.get("SEEDED_ARGS", "")))
             lines = [l for l in out.splitlines() if l.startswith(("VIOLATION", "KNOWN-FINDING", "OK ", "FAIL "))]
             results[p] = {"rc": rc, "lines": [l[:300] for l in lines]}
     finally:
